@@ -21,26 +21,17 @@ namespace BitSerializer
 	{
 		if constexpr (TArchive::IsLoading())
 		{
-			try
+			// Load the components while the array has elements: an array that is SHORTER than the tuple leaves the remaining
+			// components as they are (an exception raised inside a component, e.g. the OutOfRange of a nested fixed-size array
+			// with another number of elements, is not a short array and must not be swallowed here)
+			bool isShorter = false;
+			std::apply([&arrayScope, &isShorter](auto&&... args) {
+				((isShorter = isShorter || arrayScope.IsEnd(), isShorter ? false : Serialize(arrayScope, args)), ...);
+			}, value);
+			if (isShorter && arrayScope.GetOptions().mismatchedTypesPolicy == MismatchedTypesPolicy::ThrowError)
 			{
-				std::apply([&arrayScope](auto&&... args) {
-					((Serialize(arrayScope, args)), ...);
-				}, value);
-			}
-			// Handle case when size of loading array LESS than tuple
-			catch (const SerializationException& ex)
-			{
-				if (ex.GetErrorCode() == SerializationErrorCode::OutOfRange)
-				{
-					if (arrayScope.GetOptions().mismatchedTypesPolicy == MismatchedTypesPolicy::ThrowError)
-					{
-						throw SerializationException(SerializationErrorCode::MismatchedTypes,
-							"The size of array being loaded is less than target tuple");
-					}
-				}
-				else {
-					throw;
-				}
+				throw SerializationException(SerializationErrorCode::MismatchedTypes,
+					"The size of array being loaded is less than target tuple");
 			}
 			// Handle case when size of loading array LARGER than tuple
 			if (!arrayScope.IsEnd() && arrayScope.GetOptions().mismatchedTypesPolicy == MismatchedTypesPolicy::ThrowError)
